@@ -52,7 +52,11 @@ def placement(draw, max_offset=10.0, scale_decades=0.0, p_identity=0.25):
         tdir = [1.0, 0.0, 0.0]
     logs = 0.0
     if scale_decades > 0 and draw(st.integers(0, 2)) > 0:
-        logs = draw(f(-scale_decades, scale_decades))
+        # Hypothesis floats cluster around "nice" values; a half-decade grid plus a free offset spreads the scale evenly
+        steps = int(2 * scale_decades)
+        logs = draw(st.sampled_from([k / 2.0 for k in range(-steps, steps + 1)]))
+        if draw(st.booleans()):
+            logs = max(-scale_decades, min(scale_decades, logs + draw(f(-0.25, 0.25))))
     return {"quat": quat, "tdir": tdir, "tmag": tmag, "logs": logs}
 
 
